@@ -278,7 +278,8 @@ fn parse_at_rule(
                 );
             }
             let r = input.try_parse::<_, _, ParseError<()>>(|input| {
-                let rel_path = input.expect_string_cloned()?;
+                // the path may be written as a string or as `url(...)`
+                let rel_path = input.expect_url_or_string()?;
                 let mut close_stack = vec![];
                 let mut has_media = false;
                 while let Ok(peek) = input.peek() {
